@@ -286,3 +286,14 @@ func TestC07_SQL(t *testing.T) {
 	st.Assume = append(st.Assume, "empty TEXT keys are replaced (known finding K1 under C08)")
 	checkRapid(t, st, genC07SQLCase, runC07SQL)
 }
+
+// The same generator under C06: "keys of all five storage classes" includes keys that are
+// equal across the two numeric representations (and of magnitude >= 2^53); the generator
+// of TestC06_Diff keeps its keys pairwise distinct, so those statements come from here.
+func init() { register("TestC06_Twins", runC07SQL) }
+
+func TestC06_Twins(t *testing.T) {
+	st := newStats(t, "C06", "TestC06_Twins", "the differential runner of C06 over the key generator of TestC07_SQL: 3-60 generated keys per table where every third key is derived from an earlier one (equal value in the other numeric representation incl. magnitudes >= 2^53, neighbour, same bytes in the other class), INSERT (also of NULL keys), DELETE, point/range/ORDER BY queries, reconnects, entries_per_node 2..4096: statement outcome classes (success / key constraint) and contents after every statement must equal a native WITHOUT ROWID table; non-trivial = an equal-key INSERT refused while the tree has height >= 1")
+	st.Assume = append(st.Assume, "empty TEXT keys are replaced (known finding K1 under C08)", "the key column is compared up to SQLite equality (known finding K5 under C07: a re-inserted equal key keeps its first representation)")
+	checkRapid(t, st, genC07SQLCase, runC07SQL)
+}
